@@ -95,7 +95,12 @@ def is_wrapped_literal(t) -> bool:
 
 def gen_special_field(rng, nm):
     """Optional[Literal], List[Literal], choice(str…), choice(non-str…), choice(dict), choice(Enum)"""
-    kind = rng.choice(["optlit", "listlit", "choice-str", "choice-nonstr", "choice-mixed", "choice-dict", "choice-enum"])
+    kind = rng.choice(["optlit", "listlit", "choice-str", "choice-nonstr", "choice-mixed", "choice-dict", "choice-enum",
+                       "enum-none-default"])
+    if kind == "enum-none-default":
+        # `x: E = None` (not Optional): the enum parser, not type=str + choices, produces the member (fixes 53722bc, 69d4809)
+        e = dict(rng.choice(G.ENUMS))
+        return {"name": nm, "ty": e, "default": {"kind": "value", "v": {"t": "none"}}}
     if kind == "optlit":
         vals = [dict(v) for v in rng.choice(LITERALS)]
         t = {"k": "opt", "inner": {"k": "literal", "vals": vals}}
@@ -294,7 +299,7 @@ def special_engine_case(rng, f=None):
         while True:
             f = gen_special_field(rng, nm)
             ch = f.get("choice")
-            if (ch is None or ch["kind"] == "plain") and f["default"]["kind"] != "missing":
+            if (ch is None or ch["kind"] == "plain") and f["default"]["kind"] != "missing" and f["ty"]["k"] != "enum":
                 break
     ch = f.get("choice")
     if ch is None:
